@@ -39,6 +39,22 @@ def model_levels(names, shape, levels):
   return names, shape
 
 
+def py_logical_to_mesh(names, rules):
+  """rule priority as documented, written independently of flax and of the Coq model; None = outside (duplicate names raise)"""
+  strs = [n for n in names if n is not None]
+  if len(strs) != len(set(strs)):
+    return None
+  res = {n: 'unassigned' for n in strs}
+  used = set()
+  for a, t in rules:
+    if a in res and res[a] == 'unassigned':
+      axes = list(t) if t else []
+      if not any(x in used for x in axes):
+        res[a] = axes if t else None
+        used.update(axes)
+  return [None if n is None or res[n] in ('unassigned', None) else res[n] for n in names]
+
+
 def run(chk):
   rng = chk.rng
   thorough = chk.tier == 'thorough'
@@ -231,6 +247,10 @@ Definition chk (c : list (option N) * list N * list (Z * N * N) * list (option N
       used = [a for e in res if e for a in e]
       if len(used) != len(set(used)) and not any(t and len(t) != len(set(t)) for _, t in c['rules']):
         chk.violation('oracle', 'logical_to_mesh_axes used one mesh axis for two dimensions', {'case': c, 'observed': res})
+      want = py_logical_to_mesh(c['names'], c['rules'])
+      if want is not None and res != want:
+        chk.violation('oracle', 'logical_to_mesh_axes does not assign by rule priority: a dimension gets the mesh axes of the first rule for its name whose mesh axes are all still free '
+                      'when that rule is reached; a rule that cannot fire decides nothing and later rules for that name may still apply', {'case': c, 'observed': res, 'expected': want})
       if len(res) != len(c['names']):
         chk.violation('oracle', 'logical_to_mesh_axes: result length differs from the number of dimensions', {'case': c, 'observed': res})
     exp = copt(None if 'err' in o else clist([clist([cN(MC[a]) for a in (e or [])]) for e in o['ok']]))
